@@ -57,7 +57,7 @@ TABLE = {
           "Proved for all domains, repulsor sets, radii, points, batch sizes, optimisers and redrawn radii: value in [0,1], exactly 0 iff some repulsor is strictly inside the radius and otherwise p; the expanded clamped distance is the squared Euclidean distance; both unit-cube round trips; in-box coordinates in [0,1]; distance decomposition with >= 2t^2 (hence >= sqrt(one-hot dim)) between differing categories; batch independence; each pick becomes a repulsor before the next, radius redrawn, function restored.",
           "The success probability is an input (C05). IEEE rounding absorbed by a boundary margin eta=(4d+48)eps(|u|^2+|w|^2); strictness checked exactly on a dyadic family. t = numpy.sqrt(one_hot_dim) is a parameter (d <= 2t^2 checked per case).", "3/C19"),
   "C17": ("Lean 4 proof over Mathlib Matrix plus an exact Rat-list executable model (third-party cholesky/svd/qr as oracles with contracts); bridge theorems list arithmetic = Matrix arithmetic",
-          "Proved for all sizes and ranks: the SVD+QR fallback algebra yields L L^T = Sigma (Cholesky branch by contract); the model of compute_cholesky_for_gp_sampling incl. the overwrite flag reproduces Sigma exactly when the contracts hold and the buffer is intact (and a counter-model shows the buffer hypothesis cannot be dropped); exact residual error budget identity; Cov(m+Lz) = L L^T; GP sum covariance = sum w_i^2 Sigma_i. Tied each run by the exact rational max|L L^T - Sigma| against the untouched original, a recorded scipy trace replayed by the model, and every contract evaluated exactly.",
+          "Proved for all sizes and ranks: the SVD+QR fallback algebra yields L L^T = Sigma (Cholesky branch by contract); the model of compute_cholesky_for_gp_sampling incl. the overwrite flag reproduces Sigma exactly when the contracts hold and the buffer is intact (and a counter-model shows the buffer hypothesis cannot be dropped); exact residual error budget identity; Cov(m+Lz) = L L^T; GP sum covariance = sum w_i^2 Sigma_i; end-to-end composition with C02/C03: for libsigopt's kernels with positive noise the posterior covariance is PSD, so the draws have exactly the posterior covariance given only scipy's svd/qr contracts (gp_posterior_samples_cov, gpsum_posterior_samples_cov). Tied each run by the exact rational max|L L^T - Sigma| against the untouched original, a recorded scipy trace replayed by the model, and every contract evaluated exactly.",
           "Not modelled: IEEE rounding, normality and sample moments (labelled statistical tests), scipy's svd/qr/cholesky are oracles whose contracts (U E V^T = Sigma, orthogonality, Q R = input) are evaluated exactly per run; that U E U^T = Sigma follows for PSD Sigma is proved.", "3/C17"),
   "C02": ("Lean 4 / Mathlib Matrix proofs plus an exact rational model with run-time-certified inverse and LDL^T; model proved equal to the Matrix expressions",
           "Proved for all fields, sizes and inputs: the model's mean, variance (both code branches) and covariance are the closed-form conditional Gaussian with GLS coefficients; covariance symmetric and PSD (Schur complement), variance >= 0, floor laws; invariance under permutation of observations and batch shape; interpolation; prior reversion; GP-sum linear / squared-weight / PSD laws; lie data = conditioning on the augmented data set; design-matrix monomials. Hypotheses (A Ainv = 1, L D L^T = A, D > 0, A symmetric) are checked exactly on every input; the implementation is compared at all six entry points, reversed batches, a permuted copy and every lie stage within max(1e-12, 64 eps cond(A)) scale; its covariance output is certified PSD by an exact LDL^T.",
@@ -66,7 +66,7 @@ TABLE = {
           "Proved for every well-formed request, phase and sort outcome: the plan handed to the compute layer is total and shape-consistent; each GP is built from its metric's own column and hyperparameters; lies last, worst value, lie noise; failures carry the lie; scaled range and sign (via C12); one-hot encoding with task column (via C09); the acquisition-function / failure-model / threshold / cost decision table; epsilon thresholds. The endpoint value is tied on every run to the compute layer evaluated on the Lean plan within 1e-8 relative plus measured rounding noise.",
           "Numeric GP/EI/PF evaluation is delegated to C02/C03/C05; qEI is seed-matched; ties on which the property is silent (argsort among equal lies, epsilon label on an exact tie) handled liberally.", "3/C06"),
   "C04": ("Lean 4 + Mathlib HasDerivAt proofs over the polymorphic Arith model (Real for theorems, Float executed bit-exactly) + Richardson/Ridders finite-difference oracle on the implementation + model-vs-library correspondence for all gradient entry points",
-          "Proved for all dimensions, points (incl. coincident), hyperparameters, weights and list lengths that every modelled gradient is the derivative of its value: radial kernels (input, length scale, alpha), multitask product rule, polynomial and GP mean/variance gradients, GP sum, sqrt-var, EI (Gaussian Phi' = phi and z Phi + phi >= 0 proved), AEI penalty, EI x penalty, logistic / CDF / product success probabilities, cost scaling, Parzen ratio, log-domain chain rule; and, for every number of observations, the log-marginal-likelihood gradient -a'dK a + tr(K^-1 dK) (Jacobi's formula and the derivative of the matrix inverse proved from Mathlib's determinant; zero mean and GLS polynomial mean; the library's optional non-zero-mean correction term proved identically zero).",
+          "Proved for all dimensions, points (incl. coincident), hyperparameters, weights and list lengths that every modelled gradient is the derivative of its value: radial kernels (input, length scale, alpha), multitask product rule, polynomial and GP mean/variance gradients, GP sum, sqrt-var, EI (Gaussian Phi' = phi and z Phi + phi >= 0 proved), AEI penalty, EI x penalty, logistic / CDF / product success probabilities, cost scaling, Parzen ratio, log-domain chain rule; and, for every number of observations, the log-marginal-likelihood gradient -a'dK a + tr(K^-1 dK) (Jacobi's formula and the derivative of the matrix inverse proved from Mathlib's determinant; zero mean and GLS polynomial mean; the library's optional non-zero-mean correction term proved identically zero), composed with the concrete kernels: for every differentiable radial kernel and the tensor kernel, positive noise and full-rank mean basis the likelihood gradient w.r.t. process variance, each length scale and the nugget is a theorem with no hypothesis left (kernel-matrix derivative = the model's hyperparameter-gradient tensor slice, positive definiteness via C02/C03, Cholesky factor exists).",
           "Not proved: that the floating-point Cholesky/solves give the exact K^-1 quantities the likelihood theorems speak of (compared numerically), IEEE rounding; variance-clamp and exponent-cap regions stated as implemented; scipy ndtr = Gaussian CDF is trusted.", "3/C04"),
   "C11": ("Lean 4 theorems over Mathlib matrices (all sizes) plus an exact Rat list model with run-time certified inverse and LDL^T determinant, bridged by soundness theorems; hand models of the search box, packing, multistart loop and per-metric loop; correspondence through compute_log_likelihood, hyperparameters, the box builder, MultistartOptimizer.optimize and the hyper-opt endpoint with class-level recorders",
           "Proved for all n and m: GLS normal equations, quad >= 0, code expression = -s (r^T K^-1 r + log det K) via the Cholesky log-det, log/linear identity, set/get identity both ways, box rows 0<lo<hi and row count, unpack(pack h) = h and structure, multistart returns an in-box successful end point or the first start and always returns, untouched rule for stored/constant metrics, each job gets its own metric's scaled data at the successful rows.",
